@@ -148,9 +148,10 @@ pub trait BlockMode {
     /// `*_blocks`, `*_blocks_b2b`, `*_blocks_inout`; lengths are multiples of the mode block size.
     /// `Err` when the API reports unequal lengths.
     fn many(&mut self, k: Kind, inp: &[u8], out: &mut [u8]) -> R;
-    /// `encrypt_with_backend` / `decrypt_with_backend` with a CALLER-SUPPLIED closure, in place on `buf`:
-    /// full parallel groups through `*_par_blocks`, then the remainder block by block (mode 1) or through
-    /// `*_tail_blocks` only if it is non-empty (mode 2)
+    /// `encrypt_with_backend` / `decrypt_with_backend` with a CALLER-SUPPLIED closure, in place on `buf`.  `mode`:
+    /// 1 = full groups through `*_par_blocks`, remainder block by block; 2 = remainder through `*_tail_blocks` only if
+    /// non-empty; 3 / 4 = the same through the `*_inplace` backend methods; 5 = every block through `*_block`;
+    /// 6 = one block through `*_block_inplace` first, then as 2 on the rest
     fn many_closure(&mut self, mode: u8, buf: &mut [u8]);
     fn iv_state(&self) -> Vec<u8>;
     fn dup(&self) -> Box<dyn BlockMode>;
@@ -197,8 +198,8 @@ pub trait Core {
     fn apply_block(&mut self, k: Kind, inp: &[u8], out: &mut [u8]);
     fn write_block(&mut self, out: &mut [u8]);
     fn write_blocks(&mut self, out: &mut [u8]);
-    /// `process_with_backend` with a caller-supplied closure writing keystream blocks: `gen_par_ks_blocks` for
-    /// full groups, then `gen_ks_block` per block (mode 1) or `gen_tail_blocks` only if non-empty (mode 2)
+    /// `process_with_backend` with a caller-supplied closure writing keystream blocks; `mode` as for
+    /// `BlockMode::many_closure` (the stream backend has no `*_inplace` methods: 3 / 4 behave as 1 / 2)
     fn write_blocks_closure(&mut self, mode: u8, out: &mut [u8]);
     /// `try_apply_keystream_partial`, consuming
     fn partial(self: Box<Self>, k: Kind, inp: &[u8], out: &mut [u8]) -> R;
